@@ -78,11 +78,18 @@ cache_get_page(struct page_io *pio, read_page_fn *fn)
 
 /**  Drop a reference to an I/O page from the default cache.
  * @param pio  Page I/O control.
+ *
+ * The caller must not hold the cache lock.
  */
 void
 cache_put_page(struct page_io *pio)
 {
+	struct kdump_shared *shared = pio->ctx->shared;
+
+	/* Reference counts are shared by all clones. */
+	mutex_lock(&shared->cache_lock);
 	fcache_put_chunk(&pio->chunk);
+	mutex_unlock(&shared->cache_lock);
 }
 
 static addrxlat_status
